@@ -102,7 +102,7 @@ def g_scalar(rng, k):
     if k == "h":
         return "h:%d" % g_int(rng, 64)
     if k == "c":
-        return "c:%d" % (rng.choice(ESCAPES + [39, 34, 32]) if rng.random() < 0.3 else rng.choice(PRINTABLE))
+        return "c:%d" % (rng.choice(ESCAPES + [39, 34, 32, 0, 0]) if rng.random() < 0.3 else rng.choice(PRINTABLE))
     if k in "TFNI":
         return k
     if k == "s":
